@@ -37,6 +37,7 @@ type Event struct {
 	Conn int    // stream id for swrite/sclose/dial
 	Data []byte // packet or written bytes
 	Note string
+	Delay time.Duration // pkt: latency of the (first) delivery
 }
 
 // Verdict is the fault model's decision for one packet.
@@ -310,11 +311,11 @@ func (n *Network) sendPacket(src, dst string, b []byte) {
 		n.emit(Event{Kind: "pkt-lost", Src: src, Dst: dst, Data: data, Note: "policy"})
 		return
 	}
-	n.emit(Event{Kind: "pkt", Src: src, Dst: dst, Data: data})
 	delays := v.Delays
 	if len(delays) == 0 {
 		delays = []time.Duration{200 * time.Microsecond}
 	}
+	n.emit(Event{Kind: "pkt", Src: src, Dst: dst, Data: data, Delay: delays[0]})
 	for _, d := range delays {
 		if d <= 0 {
 			d = time.Microsecond
